@@ -427,14 +427,18 @@ func Harness_app_compose() {
 		if i == 2 {
 			n = n2
 		}
-		foods := []string{"f0", "f1", "x", "unknown"}
+		// names one of which is the other followed by a digit, quantities whose digits make
+		// name+quantity coincide ("f1"+"2" = "f"+"12"): whatever is remembered per portion must
+		// not confuse the two
+		foods := [][]string{{}, {"f1", "x"}, {"f", "unknown"}}[i]
+		qty := [][]string{{}, {"2", "1"}, {"12", "3"}}[i]
 		for k := 0; k < n; k++ {
-			src += "  " + foods[(i+2*k)%4] + ": " + string(rune('1'+k)) + "\n"
+			src += "  " + foods[k] + ": " + qty[k] + "\n"
 		}
 		return src
 	}
 	b1, b2 := block(1), block(2)
-	db := verifFile("db", hAppDB)
+	db := verifFile("db", hAppDB+"f:\n  x: 5\n  f0: 1\n")
 	global := []string{"--database=" + db, "--no-color"}
 	if verifChoose("begin", 2) == 1 {
 		global = append(global, "--begin="+verifDay("begin", layout, 40))
